@@ -50,10 +50,13 @@ m = {
     'version': 1,
     'setup_cmd': 'bash scripts/setup.sh',
     'hooks': {
-        'guard': 'kani',
-        'enable': 'cfg(kani) is set by `cargo kani` itself; the MIR engine and the native replay use the unmodified public API and need no hook',
+        'guard': 'cadence_verif (rustc --cfg cadence_verif) and kani (cfg(kani))',
+        'enable': 'cfg(kani) is set by `cargo kani` itself (closure twin of the default error handler, works around a Kani compiler crash). '
+                  'cfg(cadence_verif) is passed through RUSTFLAGS when mirsym/replay.py builds the native replay driver: it compiles in '
+                  'cadence::verif::{set_hook, point} and one scheduling point in Worker::run (before recv), which lets the replay hold the queue worker there '
+                  'to force a solver-found interleaving (capacity-0 histories). The MIR engine itself reads the unhooked build.',
         'baseline_off_cmd': 'cd /repo && cargo test --workspace --no-fail-fast --offline',
-        'source_commits': ['6ae8175946cb9082870c2e1002ccb6761408f276'],
+        'source_commits': ['6ae8175946cb9082870c2e1002ccb6761408f276', '04628260e0eed27d8b797639a3ae8b71276da772'],
         'add_only': True,
     },
     'engines': [
@@ -62,7 +65,7 @@ m = {
     ],
     'checks': checks,
     'not_applicable': na,
-    'notes': 'Fix commits in /repo: f2585b5 (C01), d8561c1 (C08), e925d59 (C09); see known_findings.json and DESIGN.md.',
+    'notes': 'Fix commits in /repo: f2585b5 (C01), d8561c1 (C08), e925d59 (C09). One known finding (C09 at capacity 0, residual race; see known_findings.json and DESIGN.md section 7).',
 }
 json.dump(m, open(os.path.join(HERE, 'MANIFEST.json'), 'w'), indent=1)
 print('MANIFEST.json: %d checks, %d not_applicable' % (len(checks), len(na)))
